@@ -35,7 +35,7 @@ import (
 func init() { register(&stream{name: "storage", gen: genStorage, run: runStorage}) }
 
 var stClusters = []string{"c0", "c1"}
-var stGroups = []string{"g0", "g1", "g2", "g 3", "grüp", "x1"}
+var stGroups = []string{"g0", "g1", "g2", "g 3", "grüp", "x1", "burrow-c0"}
 var stTopics = []string{"t0", "t1", "t2"}
 
 func genStorage(g *gen) {
@@ -309,6 +309,26 @@ func genStorageGeneral(g *gen) {
 		case x < 93:
 			g.emit("S status %s %s %08x %d %d", pickCluster(), pickGroup(), math.Float32bits([]float32{0, 0.3, 0.5, 1.0}[g.intn(4)]), g.pick(0, 0, 1, 5, 100), g.intn(2))
 		case x < 95:
+			if g.chance(1, 2) {
+				// the cluster module's groups reaper against this storage
+				c := pickCluster()
+				kg := "!"
+				if !g.chance(1, 6) {
+					var xs []string
+					for _, gr := range stGroups {
+						if g.chance(1, 2) {
+							xs = append(xs, hexName(gr))
+						}
+					}
+					kg = "-"
+					if len(xs) > 0 {
+						kg = strings.Join(xs, ",")
+					}
+				}
+				g.emit("S reap %s %s", c, kg)
+				fetchAll()
+				break
+			}
 			g.emit("S consumers %s", pickCluster())
 		case x < 97:
 			g.emit("S topic %s %s", pickCluster(), pickTopic())
@@ -516,6 +536,13 @@ func (s *storageRunner) fetch(req *protocol.StorageRequest) (reply interface{}, 
 		}
 	}()
 	s.st.Handle(req)
+	return <-req.Reply, false
+}
+
+// fetchViaChannel sends the request over the application's storage channel (served by the pump) and waits for the reply.
+func (s *storageRunner) fetchViaChannel(req *protocol.StorageRequest) (interface{}, bool) {
+	req.Reply = make(chan interface{}, 1)
+	s.app.StorageChannel <- req
 	return <-req.Reply, false
 }
 
@@ -886,6 +913,31 @@ func (s *storageRunner) step(r *runner, line string) {
 			}
 			r.reply("%s%s", text, tick)
 		}
+	case "reap":
+		// S reap <cluster> <kafka groups|-|!>: the REAL groups reaper of a cluster module named <cluster>
+		// (reapNonExistingGroups) against this storage, over the application's storage channel; Kafka's
+		// ListConsumerGroups answers the given set ("!" = it fails).  Output: the cluster's groups afterwards.
+		r.resolve("%s", line)
+		name := unhexName(f[2])
+		fake := &verifhook.FakeKafka{}
+		fake.GroupsFn = func() (map[string]string, bool) {
+			if f[3] == "!" {
+				return nil, false
+			}
+			m := map[string]string{}
+			if f[3] != "-" {
+				for _, x := range strings.Split(f[3], ",") {
+					m[unhexName(x)] = "consumer"
+				}
+			}
+			return m, true
+		}
+		res := guard(func() string {
+			verifhook.NewKafkaCluster(s.app, name).ReapNonExistingGroups(fake)
+			// the pump handles requests one at a time: once this fetch is answered, every delete before it is done
+			return "reaped " + listReply(s.fetchViaChannel(&protocol.StorageRequest{RequestType: protocol.StorageFetchConsumers, Cluster: name}))
+		})
+		r.reply("%s", res)
 	case "kept":
 		// S kept: every consumer detail reply handed out since init still says what it said when it was handed out
 		r.resolve("%s", line)
